@@ -133,6 +133,9 @@ rule("C02.j", "a transport loses commodity on the way to the node that receives 
      floor=1)
 
 
+rule("C02.m", "a set-up that re-scales the restriction matrix as a whole (A = A * k) re-scales the right-hand side with it (b = b * k): rows taken "
+              "over from the parent class - take volumes, capacities - state limits on the dispatch variable; multiplying only the coefficients turns "
+              "`sum x <= V` into `sum k x <= V`", floor=0, props=["C02", "C08"])
 rule("C02.l", "a transport is modelled with one variable per step only where the direction of the flow is fixed (all capacities <= 0 or all >= 0) "
               "or does not matter: the disjunct that admits flows in both directions (no costs) also requires efficiency == 1 - one variable "
               "with factors (-1, +efficiency) loses commodity in one direction and creates it in the other", floor=1)
@@ -154,7 +157,7 @@ def _reverse_flow_guard(p, st, fn):
     return None
 
 
-@analysis("roles", ["C02.c", "C02.d", "C02.e", "C02.j", "C02.l"])
+@analysis("roles", ["C02.c", "C02.d", "C02.e", "C02.j", "C02.l", "C02.m"])
 def run(ctx):
     p = ctx.p
     total = 0
@@ -351,6 +354,32 @@ def run(ctx):
                        % ("maximum" if kind == "max_take" else "minimum", " with negated values" if negated else "",
                           "n upper" if want == "U" else " lower", want, letter), node=c)
     ctx.require(n >= 4, "fewer than 4 define_restr call sites found")
+
+    # ================================================================= C02.m whole-matrix scalings come in pairs
+    n_m2 = 0
+    for fnm in sorted(p.all_functions(), key=lambda f: f.qualname):
+        if fnm.parent is not None or fnm.cls is None or not p.is_subclass(fnm.cls, "Asset"):
+            continue
+        scal = {"A": [], "b": []}
+        for st in au.walk_stmts(fnm.body):
+            if isinstance(st, ast.Assign) and len(st.targets) == 1 and au.terminal(st.targets[0]) in ("A", "b") and isinstance(st.value, ast.BinOp) \
+                    and isinstance(st.value.op, (ast.Mult, ast.Div)):
+                t = au.U(st.targets[0])
+                if au.U(st.value.left) == t:
+                    scal[au.terminal(st.targets[0])].append((st, au.U(st.value.right), type(st.value.op).__name__))
+                elif au.U(st.value.right) == t and isinstance(st.value.op, ast.Mult):
+                    scal[au.terminal(st.targets[0])].append((st, au.U(st.value.left), "Mult"))
+            elif isinstance(st, ast.AugAssign) and au.terminal(st.target) in ("A", "b") and isinstance(st.op, (ast.Mult, ast.Div)):
+                scal[au.terminal(st.target)].append((st, au.U(st.value), type(st.op).__name__))
+        for st, k, op_ in scal["A"]:
+            n_m2 += 1
+            paired = any(k2 == k and o2 == op_ for _, k2, o2 in scal["b"])
+            ctx.ob("C02.m", fnm, au.short(st, 80), paired,
+                   "every row of A is multiplied by %s while b keeps its values: the rows built by the parent set-up (the take restrictions of a contract: "
+                   "sum of dispatch over the period <= / >= volume) now limit %s x dispatch - with commodity factors [0.8, 2.2] a maximum take of V lets "
+                   "V / 0.8 through; the optimum is 3388 where the reference model gives 2759" % (k, k), node=st)
+    if n_m2 == 0:
+        ctx.ob("C02.m", "package", "whole-matrix scalings", True, ok_detail="no set-up re-scales A as a whole")
 
     # ================================================================= C02.l both directions only without losses
     trl = p.cls("Transport").methods.get("setup_optim_problem")
